@@ -312,13 +312,23 @@ class C10(Check):
                         exp = genmod_expname(p['name'])
                         lo, hi = e['props']['min'], e['props']['max']
                         span = hi - lo
-                        for v, ok in ((lo + span * 0.5, True), (lo - span * 0.4 - 1, False), (hi + span * 0.4 + 1, False),
-                                      (lo + span * 0.02, True), (hi - span * 0.02, True)):
+                        di_cfg = dict(p['di'], min=lo, max=hi)
+
+                        def judged(values):
+                            # the reference validator says which probes are clearly inside / clearly outside the
+                            # configured range (values inside the resolution band around a limit are not judged)
+                            for v in values:
+                                verdict, _info = dtgen.classify(di_cfg, v)
+                                if verdict != dtgen.DONTCARE:
+                                    yield v, verdict == dtgen.ACCEPT
+                        for v, ok in judged((lo + span * 0.5, lo - span * 0.4 - 1, hi + span * 0.4 + 1,
+                                             lo + span * 0.02, hi - span * 0.02)):
                             rr = cl.request(f'change {spec["name"]}:{exp} {json.dumps(v)}', timeout=60)
                             probes.append((spec['name'], p['name'], v, ok, rr[2].raw.decode('latin-1')[:160] if rr else None))
                         # the same limits hold for a write from inside the node (another module, a command)
                         mobj = node_modules[spec['name']]
-                        for v, ok in ((lo + span * 0.3, True), (lo - span * 0.1, False), (hi + span * 0.1, False)):
+                        for v, ok in judged((lo + span * 0.3, lo - span * 0.1, hi + span * 0.1,
+                                             lo - span * 0.6 - 2, hi + span * 0.6 + 2)):
                             try:
                                 getattr(mobj, 'write_' + p['name'])(v)
                                 txt = 'changed (internal write)'
